@@ -148,6 +148,12 @@ func c14structure(c *pbt.C, n *sim.Node, ad types.Address, where string) []*nom.
 		}
 		prev = b.Identifier()
 	}
+	// the account's frontier view (what new blocks are chained on and what readers are shown) ends at the last
+	// pooled block, or at the confirmed tip if nothing is pooled
+	if fr := n.Chain.GetFrontierAccountStore(ad).Identifier(); fr != prev {
+		c.Failf("C14/frontier-view-not-on-chain", "%s: the frontier view of %v ends at %d/%s; its confirmed tip is %d/%s and its last pooled block %d/%s", where, ad,
+			fr.Height, fr.Hash.String()[:8], st.Identifier().Height, st.Identifier().Hash.String()[:8], prev.Height, prev.Hash.String()[:8])
+	}
 	return got
 }
 
@@ -218,11 +224,13 @@ func TestC14(t *testing.T) {
 				levels["lost-"+lvl] = true
 			}
 		}
-		next := func() {
-			u := users[c.Pick("next.user", len(users))]
+		var nextOf func(u types.Address)
+		next := func() { nextOf(users[c.Pick("next.user", len(users))]) }
+		nextOf = func(u types.Address) {
 			offer(&nom.AccountBlock{BlockType: nom.BlockTypeUserSend, Address: u, ToAddress: users[c.Pick("next.to", len(users))], TokenStandard: types.ZnnTokenStandard,
 				Amount: big.NewInt(int64(c.Int("next.amt", 0, 50)))}, "next block of "+u.String()[:10])
 		}
+		var forkOf func(old *nom.AccountBlock)
 		fork := func() {
 			var cands []*nom.AccountBlock
 			for _, u := range users {
@@ -231,7 +239,9 @@ func TestC14(t *testing.T) {
 			if len(cands) == 0 {
 				return
 			}
-			old := cands[c.Pick("fork.idx", len(cands))]
+			forkOf(cands[c.Pick("fork.idx", len(cands))])
+		}
+		forkOf = func(old *nom.AccountBlock) {
 			tpl := &nom.AccountBlock{BlockType: nom.BlockTypeUserSend, Address: old.Address, PreviousHash: old.PreviousHash, Height: old.Height,
 				MomentumAcknowledged: old.MomentumAcknowledged, ToAddress: users[c.Pick("fork.to", len(users))], TokenStandard: types.ZnnTokenStandard,
 				Amount: big.NewInt(int64(c.Int("fork.amt", 0, 50)))}
@@ -300,6 +310,51 @@ func TestC14(t *testing.T) {
 			if !h.Produce(c.Weighted("skip", 5, 1)) {
 				return
 			}
+			model.afterMomentum(a, users)
+			if !syncTo(a2, a) {
+				c.Failf("C14/own-momentum-refused", "a second node refused the momentum the node produced from its pool")
+			}
+		}
+		// the pillar built its momentum from the pool, then gossip changed the pool (a competing block replaced a
+		// block the momentum confirms, a child arrived on top of it), then the pillar inserted its momentum
+		staleOwnMomentum := func() {
+			mt, err := a.BuildMomentum(c.Weighted("stale.skip", 5, 1))
+			if err != nil {
+				c.Note("stale own momentum: not built: %v", err)
+				return
+			}
+			for i, k := 0, c.Int("stale.ops", 1, 4); i < k; i++ {
+				switch c.Weighted("stale.op", 2, 1, 3) {
+				case 0:
+					fork()
+				case 1:
+					next()
+				default:
+					// aimed: a block the momentum confirms is replaced, then a child arrives on the replacement
+					var withPool []types.Address
+					for _, u := range users {
+						if len(model.get(u).list) > 0 {
+							withPool = append(withPool, u)
+						}
+					}
+					if len(withPool) == 0 {
+						next()
+						continue
+					}
+					u := withPool[c.Pick("stale.user", len(withPool))]
+					forkOf(model.get(u).list[0])
+					if c.Bool("stale.child") {
+						nextOf(u)
+					}
+				}
+			}
+			err = a.InsertOwnMomentum(mt)
+			c.Note("own momentum %d built before %s -> %v", mt.Momentum.Height, "the pool changed", err)
+			if err != nil {
+				return
+			}
+			h.Momentums++
+			c.Class("own-momentum-inserted-after-pool-changed")
 			model.afterMomentum(a, users)
 			if !syncTo(a2, a) {
 				c.Failf("C14/own-momentum-refused", "a second node refused the momentum the node produced from its pool")
@@ -382,7 +437,7 @@ func TestC14(t *testing.T) {
 		}
 		acts := map[string]func(){
 			"next": next, "next2": next, "next3": next, "fork": fork, "fork2": fork, "below": below, "reinsert": reinsert,
-			"ownMomentum": ownMomentum, "foreignMomentum": foreignMomentum,
+			"ownMomentum": ownMomentum, "foreignMomentum": foreignMomentum, "staleOwnMomentum": staleOwnMomentum, "staleOwnMomentum2": staleOwnMomentum,
 			"call":    func() { h.ActIntent(); model.resync(a, users) },
 			"callABI": func() { h.ActCallABI(); model.resync(a, users) },
 		}
